@@ -298,7 +298,7 @@ CLAIMED = {
             'inputs (raises iff units are mixed, else strips and returns the '
             'unit); symbolic arrays in Fortran-ordered / strided containers '
             'give solver-equal do_photometry, centroid_com and '
-            'detect_sources results; and for 13 entry points every '
+            'detect_sources results; and for 20 entry points (second batch: nine background estimators, LocalBackground, detect_threshold, data_properties, do_photometry + ApertureMask methods, fit_fwhm, detect+deblend) every '
             'representation of the same integer-valued scene (float32, '
             'int16/32/64, uint16, big-endian float64/float32, Fortran order, '
             'strided view, MaskedArray with empty mask, Quantity, NDData, '
